@@ -10,16 +10,18 @@ import common
 import corechecks
 
 THEOREMS = ['C12_phaseMonotone', 'C12_phaseMonotone_exec', 'C12_appendOnly', 'C12_nonempty', 'C12_end', 'C12_storedOnly', 'C12_view', 'C12_toggle', 'C12_roundTrip']
-MODULE = 'NautilusVerif.Properties.C12'
+MODULE = [('NautilusVerif.Properties.C12', THEOREMS), ('NautilusVerif.Properties.C05Tie', ['C05_run_skeleton'])]
 FILES = ['nautilus/sampler.py']
 INVARIANTS = ['shape', 'counts', 'aligned']
 
 
 def run(chk):
     chk.extra['source_digest'] = common.source_digest(FILES)
-    chk.prove(MODULE, THEOREMS)
+    import gen_c05
+    text5, _ = gen_c05.generate(common.REPO)
+    chk.prove(MODULE, None, {'NautilusVerif/Generated/C05.lean': text5})
     if chk.tier == 'thorough':
-        chk.leanchecker([MODULE])
+        chk.leanchecker([m for m, _ in MODULE])
     results = corechecks.run_all(chk.tier, chk.seed)
     corechecks.report(chk, 'C12', results, INVARIANTS)
     chk.assumptions += ['run() calls add_bound and ends exploration only under `not self.explored` (PhaseOK; tied by the run-skeleton translator)']
